@@ -178,3 +178,34 @@ def interval_returns_top_fraction(h, cls, n, count):
         if count is None and ret:
             others = [float(probs[kk]) for kk in keep if not any(float(P[q]) == float(probs[kk]) and np.all(S[q] == np.asarray(rows[kk])) for q in range(len(P)))]
             h.same("returned values dominate the discarded ones", all(min(ret) >= o for o in others), True)
+
+
+@unit("C14", quick=[dict(cls=c, n=3, d=2) for c in ("gibbs", "hmc")], max_paths=500)
+def readouts_follow_the_current_chain_state(h, cls, n, d):
+    """read-outs taken before and after the last stored point is replaced (what a tempering swap does through
+    replace_last) and after the chain has grown by one stored point: every read-out reflects the state at the
+    time of the call, never an earlier one"""
+    chain, rows, probs = _chain(h, cls, n, d)
+    dt = object if h.sym else float
+    _unchanged(h, chain, rows, probs, d, "construction")   # warms anything a read-out may keep
+    for i in range(d):
+        chain.get_parameter(i, burn=0, thin=1)
+    new = h.real("new_last", d)
+    chain.replace_last(np.array(new, dtype=dt))
+    rows2 = rows[:-1] + [new]
+    _unchanged(h, chain, rows2, probs, d, "replace_last")
+    for i in range(d):
+        h.eq(f"after replace_last: get_parameter({i})", chain.get_parameter(i, burn=0, thin=1), np.array([r[i] for r in rows2], dtype=dt))
+    # growth by one stored point, written the way the samplers store it
+    extra, lp = h.real("extra", d), h.real("extra_lp")
+    if cls == "gibbs":
+        for i, p in enumerate(chain.params):
+            p.samples.append(extra[i])
+    else:
+        chain.theta.append(np.array(extra, dtype=dt))
+    chain.probs.append(lp)
+    chain.chain_length += 1
+    rows3, probs3 = rows2 + [extra], probs + [lp]
+    _unchanged(h, chain, rows3, probs3, d, "one more stored point")
+    chain.replace_last(np.array(new, dtype=dt))
+    _unchanged(h, chain, rows2 + [new], probs3, d, "one more stored point and replace_last")
